@@ -72,7 +72,7 @@ def showKeyOpt : Option Int → String
   | none => "panic"
 
 def obsHeap (s : St) : String :=
-  s!"len={Heap.len s.h} peek={showItemOpt (Heap.peek s.h)}"
+  s!"len={Heap.X.len s.h} peek={showItemOpt (Heap.X.peek s.h)}"
 
 def obsKey (q : PQ.PQ Int Int) (k : Int) : String :=
   let c := if PQ.contains q k then "1" else "0"
@@ -95,15 +95,15 @@ def step (s : St) : List String → St × String
     let r := Heap.new less (parsePairs items)
     ({ s with hless := less, h := r.1, hits := #[] }, "ok")
   | ["push", p, id] =>
-    ({ s with h := (Heap.push s.hless s.h (intOr p, intOr id)).1 }, "ok")
+    ({ s with h := Heap.X.push s.hless s.h (intOr p, intOr id) }, "ok")
   | ["pop"] =>
-    match Heap.pop s.hless s.h with
+    match Heap.X.pop s.hless s.h with
     | none => (s, "panic")
-    | some (h', x, _) => ({ s with h := h' }, showPair x)
-  | ["peek"] => (s, showItemOpt (Heap.peek s.h))
-  | ["len"] => (s, toString (Heap.len s.h))
-  | ["grow", _] => ({ s with h := Heap.grow s.h }, "ok")
-  | ["shrink", _] => ({ s with h := Heap.shrink s.h }, "ok")
+    | some (h', x) => ({ s with h := h' }, showPair x)
+  | ["peek"] => (s, showItemOpt (Heap.X.peek s.h))
+  | ["len"] => (s, toString (Heap.X.len s.h))
+  | ["grow", _] => ({ s with h := Heap.X.grow s.h }, "ok")
+  | ["shrink", _] => ({ s with h := Heap.X.shrink s.h }, "ok")
   | ["obs"] => (s, obsHeap s)
   | ["dump"] => (s, showPairs s.h.a)
   | ["iter"] => ({ s with hits := s.hits.push Heap.iterate }, s!"iter {s.hits.size}")
@@ -112,7 +112,7 @@ def step (s : St) : List String → St × String
     match s.hits[k]? with
     | none => (s, "bad-op")
     | some it =>
-      match Heap.iterNext s.h it with
+      match Heap.X.iterNext s.h it with
       | (it', .panic) => ({ s with hits := s.hits.set! k it' }, "panic")
       | (it', .done) => ({ s with hits := s.hits.set! k it' }, "end")
       | (it', .item (some x)) => ({ s with hits := s.hits.set! k it' }, showPair x)
